@@ -72,6 +72,11 @@ PointwiseEq == LET N == LenOf(W) IN N > 0 =>
    \A p \in Forms : LET sg == Sig(p, W, N, S, StdMode) IN
                     \A t \in 1..N : LET r == RhoPt(p, W, N, t) IN r = Undef \/ sg[t] = Undef \/ sg[t] = r
 
+\* C18 in dense time: the laws hold for the cell semantics SigC as well (the state W is read as a cell sequence)
+PairsEqDense == LET N == LenOf(W) IN N > 0 =>
+             \A pr \in Pairs : (DenseOK(pr[1]) /\ DenseOK(pr[2])) =>
+                 EqModUndef(SigC(pr[1], W, N, S, StdMode), SigC(pr[2], W, N, S, StdMode))
+
 \* C19: on step signals that change only at the sampling instants (period 1) the dense-time robustness at
 \* sampling instant k equals the discrete-time robustness at sample k, as long as k + horizon < |w|.
 \* The cells of the stretched signal are the samples themselves (the last cell is the held tail).
